@@ -75,6 +75,8 @@ type Options struct {
 	// Also enables the state-agreement oracles of other properties (used by C08/C09/C10/C19,
 	// whose statements quantify over "every AOL, DID and PNFT query").
 	Also map[string]bool
+	// Previous starts the world on the emulated previous release (C19); Dir is its home.
+	Previous bool
 	// Twin runs a second, never-stopping instance that executes every committed block;
 	// Perturb additionally interleaves CheckTx/ReCheck/Simulate/Query calls on it.
 	Twin    bool
@@ -107,7 +109,9 @@ type World struct {
 	// ProbeDenoms are extra (possibly non-existing) denom ids used as query arguments.
 	ProbeDenoms []string
 	// block bookkeeping for crash/re-deliver and the twin
-	blk        *blockRec
+	blk *BlockRec
+	// Blocks lists every committed block of the current chain.
+	Blocks     []*BlockRec
 	Twin       *Twin
 	commitDump map[string][]simnet.KV
 	commitHash []byte
@@ -141,7 +145,7 @@ func New(opt Options) (*World, error) {
 		}
 		db = d
 	}
-	g := simnet.GenesisOptions{Accounts: accts}
+	g := simnet.GenesisOptions{Accounts: accts, Previous: opt.Previous}
 	if opt.Mutate != nil {
 		g.Mutate = func(_ func(interface{}) []byte, gs map[string]json.RawMessage) { opt.Mutate(gs) }
 	}
@@ -230,11 +234,11 @@ func parseCoins(s string) sdk.Coins {
 
 // TxObs is everything observed around one DeliverTx.
 type TxObs struct {
-	Step    *TxStep
-	Msgs    []sdk.Msg // inner messages (authz unwrapped)
-	Outer   []sdk.Msg
-	Res     abci.ResponseDeliverTx
-	BuildErr error
+	Step       *TxStep
+	Msgs       []sdk.Msg // inner messages (authz unwrapped)
+	Outer      []sdk.Msg
+	Res        abci.ResponseDeliverTx
+	BuildErr   error
 	AntePassed bool
 	// Signed lists the bech32 addresses of accounts that produced a real signature.
 	Signed  map[string]bool
@@ -268,7 +272,7 @@ func (w *World) ensureBlock() error {
 	if err != nil {
 		return &Violation{"C17", err.Error()}
 	}
-	w.blk = &blockRec{dt: dt, beginEv: bb.Events}
+	w.blk = &BlockRec{DT: dt, BeginEv: bb.Events}
 	return nil
 }
 
@@ -347,8 +351,8 @@ func (w *World) applyTx(ts *TxStep) error {
 		return nil
 	}
 	obs.Res = w.C.DeliverTx(raw)
-	w.blk.raw = append(w.blk.raw, raw)
-	w.blk.res = append(w.blk.res, obs.Res)
+	w.blk.Raw = append(w.blk.Raw, raw)
+	w.blk.Res = append(w.blk.Res, obs.Res)
 	ctx = w.C.DeliverCtx()
 	obs.Post = map[string][]simnet.KV{}
 	for _, st := range customStores {
@@ -466,12 +470,12 @@ func (w *World) applyCommit(dt int64) error {
 	if w.On("C07") {
 		pre = w.preEndBlock()
 	}
-	if !w.blk.hasEnd {
+	if !w.blk.HasEnd {
 		eb, err := w.C.EndBlock()
 		if err != nil {
 			return &Violation{w.panicProp(), err.Error()}
 		}
-		w.blk.endRes, w.blk.hasEnd = eb, true
+		w.blk.EndRes, w.blk.HasEnd = eb, true
 	}
 	if w.On("C07") {
 		if err := w.checkC07(pre); err != nil {
@@ -484,6 +488,8 @@ func (w *World) applyCommit(dt int64) error {
 	w.pendDT = dt
 	w.snap()
 	w.shape("commit")
+	w.blk.Hash, w.blk.Height = w.C.App.LastCommitID().Hash, w.C.Height
+	w.Blocks = append(w.Blocks, w.blk)
 	if w.On("C10") {
 		w.commitDump, w.commitHash = w.allStoreDump(), w.C.App.LastCommitID().Hash
 	}
@@ -514,12 +520,12 @@ func (w *World) panicProp() string {
 // EndBlock so that the stop point is "after EndBlock, before Commit".
 func (w *World) applyCrash(redeliver, afterEnd bool) error {
 	inBlock := w.C.InBlock
-	if inBlock && afterEnd && !w.blk.hasEnd {
+	if inBlock && afterEnd && !w.blk.HasEnd {
 		eb, err := w.C.EndBlock()
 		if err != nil {
 			return &Violation{w.panicProp(), err.Error()}
 		}
-		w.blk.endRes, w.blk.hasEnd = eb, true
+		w.blk.EndRes, w.blk.HasEnd = eb, true
 		w.Label("crash after EndBlock")
 	}
 	wantHeight := w.C.Height
@@ -534,7 +540,7 @@ func (w *World) applyCrash(redeliver, afterEnd bool) error {
 	if inBlock {
 		w.shape("crash:inblock")
 		w.Label("crash in block")
-		if len(w.blk.raw) > 0 {
+		if len(w.blk.Raw) > 0 {
 			w.Label("crash after delivered txs")
 		}
 	} else {
@@ -543,20 +549,20 @@ func (w *World) applyCrash(redeliver, afterEnd bool) error {
 	}
 	if inBlock && redeliver {
 		rec := w.blk
-		bb, err := w.C.BeginBlock(time.Duration(rec.dt) * time.Second)
+		bb, err := w.C.BeginBlock(time.Duration(rec.DT) * time.Second)
 		if err != nil {
 			return &Violation{"C10", err.Error()}
 		}
-		if d := eventsEqual(rec.beginEv, bb.Events); d != "" {
+		if d := eventsEqual(rec.BeginEv, bb.Events); d != "" {
 			return vio("C10", "re-delivered BeginBlock differs: %s", d)
 		}
-		for i, raw := range rec.raw {
+		for i, raw := range rec.Raw {
 			res := w.C.DeliverTx(raw)
-			if d := resultsEqual(rec.res[i], res); d != "" {
+			if d := resultsEqual(rec.Res[i], res); d != "" {
 				return vio("C10", "tx %d of the interrupted block gives a different result when the block is delivered again: %s", i, d)
 			}
 		}
-		rec.hasEnd = false
+		rec.HasEnd = false
 		w.blk = rec
 		w.Label("block re-delivered after crash")
 		return nil
